@@ -13,5 +13,8 @@ PROP = dict(
     level_note=_NOTE,
     assumptions=["stable two-node membership", "fake Honeycomb accepts everything (status 202)"],
     stages=[dict(kind="walk", name="cluster", module="Cluster", pkg="route", test="TestVerifCluster", harness=["route/cluster_test.go"],
-                 cfg={"quick": "MC_Cluster_q.cfg", "thorough": "MC_Cluster_big.cfg"}, budget={"quick": 45, "thorough": 600}, maxwalk=30)],
+                 cfg={"quick": "MC_Cluster_q.cfg", "thorough": "MC_Cluster_big.cfg"}, budget={"quick": 30, "thorough": 450}, maxwalk=30, share_graph=True),
+            # second pass over the same graph: client bodies that spell the probe / stressed markers out as false
+            dict(kind="walk", name="cluster-bodymeta", module="Cluster", pkg="route", test="TestVerifCluster", harness=["route/cluster_test.go"],
+                 cfg={"quick": "MC_Cluster_q.cfg", "thorough": "MC_Cluster_big.cfg"}, budget={"quick": 20, "thorough": 200}, maxwalk=30, env={"VERIF_BODYMETA": "1"})],
 )
